@@ -106,7 +106,8 @@ type wrapSvc struct {
 	srv    *server.LockServer
 	mu     sync.Mutex
 	tagged []string
-	ends   []string
+	ends   []string         // ConnEnd deliveries (recorded when HandleConn is entered)
+	ended  []string         // ConnEnd deliveries that have RETURNED (the lock server has finished ending the session)
 	gates  map[string]*gate // by lock name
 }
 
@@ -129,13 +130,20 @@ func (w *wrapSvc) TagConn(ctx context.Context, st *stats.ConnTagInfo) context.Co
 }
 
 func (w *wrapSvc) HandleConn(ctx context.Context, st stats.ConnStats) {
-	if _, ok := st.(*stats.ConnEnd); ok {
-		sid, _ := w.srv.SessionId(ctx)
+	_, isEnd := st.(*stats.ConnEnd)
+	sid := ""
+	if isEnd {
+		sid, _ = w.srv.SessionId(ctx)
 		w.mu.Lock()
 		w.ends = append(w.ends, sid)
 		w.mu.Unlock()
 	}
 	w.Service.HandleConn(ctx, st)
+	if isEnd {
+		w.mu.Lock()
+		w.ended = append(w.ended, sid)
+		w.mu.Unlock()
+	}
 }
 
 func (w *wrapSvc) TryLock(ctx context.Context, req *pb.TryLockRequest) (*pb.LockResponse, error) {
